@@ -26,10 +26,15 @@ func (ct *CommonTag) render(name string, p *renderState, wr *bytes.Buffer) error
 	if len(ct.AttributeBlocks) > 0 || len(ct.Attrs) > 0 {
 		attrs = `{{ __attrs `
 		for _, attr := range ct.Attrs {
+			val := p.JsExpr(attr.Val, false, false)
+			if val == "" {
+				// the null literal compiles to nothing
+				val = "null"
+			}
 			if attr.MustEscape {
-				attrs += fmt.Sprintf(`(__attr %q %s %t) `, attr.Name, p.JsExpr(attr.Val, false, false), attr.MustEscape)
+				attrs += fmt.Sprintf(`(__attr %q %s %t) `, attr.Name, val, attr.MustEscape)
 			} else {
-				attrs += fmt.Sprintf(`(__attr %q %q %t) `, attr.Name, p.JsExpr(attr.Val, false, false), attr.MustEscape)
+				attrs += fmt.Sprintf(`(__attr %q %q %t) `, attr.Name, val, attr.MustEscape)
 			}
 		}
 		for _, ab := range ct.AttributeBlocks {
